@@ -273,7 +273,7 @@ func init() {
 		Name:  "EFF-ext",
 		Doc:   "every function outside the module and bitset that module code may call is covered by the reviewed external table",
 		Props: []string{"C13", "C14", "C12", "C10"},
-		Floor: 30,
+		Floor: 15,
 		Run: func(c *Ctx, s *core.Sink) {
 			e := BuildEff(c)
 			seen := map[string]token.Pos{}
@@ -321,7 +321,7 @@ func init() {
 		Name:  "EFF-globals",
 		Doc:   "no function other than a package initialiser may write memory reachable from a package-level variable",
 		Props: []string{"C14", "C10"},
-		Floor: 30,
+		Floor: 15,
 		Run: func(c *Ctx, s *core.Sink) {
 			e := BuildEff(c)
 			// writers per global
@@ -419,7 +419,7 @@ func init() {
 		Name:  "EFF-config",
 		Doc:   "no exported function or method writes into a parser, parserOptions, profile, PercentEncodeSet or bitset object that existed before the call (configuration is frozen once its constructor returns)",
 		Props: []string{"C14"},
-		Floor: 80,
+		Floor: 40,
 		Run: func(c *Ctx, s *core.Sink) {
 			e := BuildEff(c)
 			for _, f := range c.P.ExportedAPI() {
@@ -452,7 +452,7 @@ func init() {
 		Name:  "EFF-read",
 		Doc:   "the read API (getters, Href/String, ValidationErrors, Clone, (*Url).Parse, Parse/ParseRef of parser and profile, BasicParser w.r.t. its base) writes nothing reachable from the receiver / base",
 		Props: []string{"C14", "C13"},
-		Floor: 25,
+		Floor: 12,
 		Run: func(c *Ctx, s *core.Sink) {
 			e := BuildEff(c)
 			for _, f := range c.P.ExportedAPI() {
@@ -522,7 +522,7 @@ func init() {
 		Name:  "EFF-clonepure",
 		Doc:   "copy functions (clone*, Clone*) only build fresh objects: they write no memory that existed before the call, neither of the value they copy nor of any other argument",
 		Props: []string{"C13"},
-		Floor: 4,
+		Floor: 2,
 		Run: func(c *Ctx, s *core.Sink) {
 			e := BuildEff(c)
 			for _, f := range e.Fns {
@@ -744,7 +744,7 @@ func init() {
 		Name:  "EFF-determ",
 		Doc:   "code reachable from the read API iterates over no map and uses no time, randomness, goroutine, channel or OS facility (results do not depend on the schedule)",
 		Props: []string{"C14"},
-		Floor: 60,
+		Floor: 30,
 		Run: func(c *Ctx, s *core.Sink) {
 			e := BuildEff(c)
 			banned := map[string]bool{"time": true, "math/rand": true, "math/rand/v2": true, "crypto/rand": true, "os": true, "sync/atomic": true, "runtime": true, "net": true, "os/exec": true, "syscall": true}
